@@ -274,8 +274,8 @@ def r3(ctx):
         cur = [x for x in sides if isinstance(x, ast.Attribute) and x.attr in ("point_labels", "_point_labels") and isinstance(x.value, ast.Name)]
         prev = [x for x in sides if isinstance(x, ast.Name)]
         if len(cur) != 1 or len(prev) != 1:
-            ctx.fail(fi, "fixed-point test does not compare <state>.point_labels with a saved labelling", line=cmp_.lineno,
-                     role="exit:break-guard", expected="previous == state.point_labels", found=unparse(cmp_))
+            ctx.unrecognised(fi, "fixed-point test does not compare <state>.point_labels with a saved labelling in a form the rule recognises", line=cmp_.lineno,
+                     role="exit:break-guard", found=unparse(cmp_))
             continue
         cur, prev = cur[0], prev[0]
         defs = rd.origins(tnode, cur.value.id)
